@@ -15,6 +15,8 @@ R3  REJECT scanners: every function that makes another buffer current goes on to
 R4  after a release of a pointer read from a field/global, that field/global is overwritten before the function returns.
 R8  C++: every member that yy_init_globals of the C scanners resets and that a member function reads is initialised on every
     constructor path (sibling agreement ctor_common <-> yy_init_globals).
+R9  %array: every bulk copy into the yytext array is dominated by a capacity comparison that covers destination offset + length
+    (all additive terms, e.g. yy_more_offset) and whose failing edge is fatal.
 R5  every field/static whose zero value triggers lazy initialisation is reset by yy_init_globals, which yylex_destroy calls
     after its frees; arrays released in yylex_destroy have their index/capacity companions reset too.
 """
@@ -957,6 +959,110 @@ def _written_before_read(F, prog, fns, k, weak=False):
         if any(x in r for x in ld): return False
     return True
 
+# ---------------------------------------------------------------- R9
+
+COPY_CALLS = {'strncpy': (0, 2), 'memcpy': (0, 2), 'memmove': (0, 2), 'llvm.memcpy.p0i8.p0i8.i64': (0, 2), 'llvm.memmove.p0i8.p0i8.i64': (0, 2)}
+UNBOUNDED_COPY = {'strcpy': 0, 'strcat': 0, 'sprintf': 0, 'vsprintf': 0, 'gets': 0}
+
+def _writes_through_param(F, fn, pname):
+    O = F.o(fn)
+    return any(x.op == 'store' and ('param', pname) in O.roots(x.ops[1]) for x in fn.ins)
+
+def _yytext_dest(F, fn, a):
+    """if pointer value a is &yytext[off] of the %array text: (capacity, offset value or None for 0, array node), else None"""
+    for _ in range(6):
+        if a[0] == 'ccast': a = a[2]; continue
+        d = fn.def_of(a)
+        if d is not None and d.op == 'bitcast': a = d.ops[0]; continue
+        break
+    if a[0] == 'cgep': srcty, base, idx = a[1], a[2], a[3]
+    else:
+        d = fn.def_of(a)
+        if d is None or d.op != 'getelementptr': return None
+        srcty, base, idx = d.srcty, d.ops[0], d.ops[1:]
+    if srcty is None or srcty.k != 'arr' or repr(srcty.b) != 'i8' or len(idx) != 2 or idx[0] != ('int', 0): return None
+    nodes = [nn for nn in F.addr_nodes(fn, base) if nn[0] in ('F', 'G') and ccanon(nn[2] if nn[0] == 'F' else nn[1]) == 'yytext']
+    if not nodes: return None
+    return (srcty.a, None if idx[1] == ('int', 0) else idx[1], nodes[0])
+
+def _lin_add(a, b, sg=1):
+    t = dict(a[1])
+    for k, c in b[1].items(): t[k] = t.get(k, 0) + sg * c
+    return (a[0] + sg * b[0], {k: c for k, c in t.items() if c})
+
+def r9(rep, v, prog, mod, F):
+    """%array: every bulk copy into the yytext array is dominated by a comparison with the array capacity whose compared value
+    covers destination offset + copied length, and whose failing edge is fatal"""
+    n = 0
+    for fn in mod.functions.values():
+        if not fn.blocks or fn.name in F.wrappers: continue
+        for call in fn.ins:
+            if call.op not in ('call', 'invoke') or not call.ops: continue
+            spec = None
+            cn = call.callee if isinstance(call.callee, str) else None
+            tgt = F.callee_of(call)
+            if cn in COPY_CALLS: spec = COPY_CALLS[cn]
+            elif cn in UNBOUNDED_COPY: spec = (UNBOUNDED_COPY[cn], None)
+            elif tgt and len(call.ops) >= 3 and fkey(tgt) == 'yy_flex_strncpy': spec = (0, 2)
+            dests = [(i, _yytext_dest(F, fn, a)) for i, a in enumerate(call.ops)]
+            dests = [(i, d) for i, d in dests if d]
+            if not dests: continue
+            if spec is None:
+                # a scanner function that stores through the parameter it receives the array in, with no known length argument
+                if tgt and any(mod.functions[tgt].params[i][1] and _writes_through_param(F, mod.functions[tgt], mod.functions[tgt].params[i][1]) for i, d in dests if i < len(mod.functions[tgt].params)):
+                    rep.broken('C13.R9: %s passes the yytext array to %s, which writes through it, and the rule does not know its length argument [variant %s]' % (fn.name, tgt, v.name))
+                continue
+            d = [x for i, x in dests if i == spec[0]]
+            if not d: continue
+            cap, offv, node = d[0]
+            n += 1
+            key = 'C13.R9:%s:%s:copy-into-yytext' % (skel(v), fkey(fn))
+            if spec[1] is None:
+                rep.fail('C13.R9', key + ':unbounded', where(call), '%s copies into the %d-byte yytext array with %s, which has no length limit [variant %s]' % (fn.name, cap, cn, v.name), variant=v.describe()); continue
+            off = (0, {}) if offv is None else linear(F, fn, offv)
+            ln = linear(F, fn, call.ops[spec[1]])
+            if off is None or ln is None: rep.broken('C13.R9: cannot normalise offset/length of the copy into yytext in %s [variant %s]' % (fn.name, v.name))
+            need = _lin_add(off, ln)                          # last byte written is at index need-1: need <= cap must hold
+            cfg = prog.cfg(fn)
+            good = None; why = 'no comparison with the array capacity dominates the copy'
+            for b in fn.blocks:
+                br = b.ins[-1]
+                if br.op != 'br' or not br.ops or len(br.targets) != 2 or not cfg.ins_dominates(br, call): continue
+                c = fn.def_of(br.ops[0])
+                if c is None or c.op != 'icmp' or c.pred not in ('sge', 'uge', 'sgt', 'ugt', 'slt', 'ult', 'sle', 'ule'): continue
+                lhs = linear(F, fn, c.ops[0]); rhs = linear(F, fn, c.ops[1])
+                if lhs is None or rhs is None: continue
+                pred = c.pred[1:]
+                if lhs[1] and not rhs[1]: X, C = lhs, rhs[0]
+                elif rhs[1] and not lhs[1]: X, C = rhs, lhs[0]; pred = {'ge': 'le', 'gt': 'lt', 'le': 'ge', 'lt': 'gt'}[pred]
+                else: continue
+                # "too large" edge, and the bound X <= bound that holds on the other edge
+                if pred in ('ge', 'gt'): big = br.targets[0]; bound = C - 1 if pred == 'ge' else C
+                else: big = br.targets[1]; bound = C - 1 if pred == 'lt' else C
+                if C > cap + 1 or C < cap // 2: continue          # not a capacity comparison
+                if call in cfg.reach_from_block(fn.bmap[big]):
+                    why = 'the too-large edge of the capacity test is not fatal'; continue
+                rest = _lin_add(need, (0, X[1]), -1)          # need - variable part of X
+                if rest[1]:
+                    miss = ', '.join(sorted(node_str(t) for t in rest[1]))
+                    why = 'the capacity test (%s) does not account for %s, which is part of destination offset + length' % (lin_str(X[0], X[1]), miss); continue
+                # need = Xvars + rest[0] <= (bound - X[0]) + rest[0] must be <= cap
+                if bound - X[0] + rest[0] > cap:
+                    why = 'the capacity test allows offset + length up to %d for an array of %d bytes' % (bound - X[0] + rest[0], cap); continue
+                # the compared state must not change between the test and the copy
+                moved = [x for x in fn.ins if x.op == 'store' and cfg.ins_dominates(br, x) and cfg.ins_dominates(x, call) and (F.addr_nodes(fn, x.ops[1]) & set(need[1]))]
+                if moved:
+                    why = '%s is modified between the capacity test and the copy' % ', '.join(sorted(node_str(t) for x in moved for t in F.addr_nodes(fn, x.ops[1]))); continue
+                good = br; break
+            if good is not None:
+                rep.ok('C13.R9', '%s %s:%s copy of %s bytes to yytext+%s guarded by the capacity test at line %s (cap %d)' % (
+                    v.name, fn.name, call.line, lin_str(ln[0], ln[1]), lin_str(off[0], off[1]) if off[1] or off[0] else '0', good.line, cap))
+            else:
+                rep.fail('C13.R9', key, where(call), '%s copies %s bytes to yytext + %s (array of %d bytes): %s [variant %s]' % (
+                    fn.name, lin_str(ln[0], ln[1]), lin_str(off[0], off[1]) if off[1] or off[0] else '0', cap, why, v.name), variant=v.describe(),
+                    replay_input='%array scanner with yymore(): pieces accumulated with yymore() whose total length reaches YYLMAX while the last piece is shorter')
+    return n
+
 def controls(ctx):
     rep = ctx.rep
     mod = compile_control(ctx, 'c13_control.c')
@@ -1007,6 +1113,10 @@ def run(ctx):
         mod = variants.module(v); prog = variants.program(v)
         F = flows.pop(v.name, None) or Flow(prog, mod)
         if v.backend == 'cxx': tot['R8'] += r8(rep, v, prog, mod, F, cinit)
+        if 'M4_MODE_YYTEXT_IS_ARRAY' in variants.mode_symbols(v):
+            k = r9(rep, v, prog, mod, F)
+            if k < 1: rep.broken('C13.R9: %%array variant %s has no bulk copy into the yytext array' % v.name)
+            tot['R9'] = tot.get('R9', 0) + k
         nfn += len(mod.functions)
         tot['R1'] += r1(rep, v, prog, mod, F)
         tot['R2'] += r2(rep, v, prog, mod, F)
@@ -1029,6 +1139,7 @@ def run(ctx):
     rep.floor('C13.R4', 880, 'measured 966: 6-14 releases of stored pointers + the slot clearing per variant')
     rep.floor('C13.R5', 1100, 'measured 1195: 4-7 lazily initialised locations + destroy order + 4-6 companions per variant')
     rep.floor('C13.R8', 280, 'measured 316 (quick): 10-16 members x 2 constructors in each C++ variant')
+    rep.floor('C13.R9', 6, 'one copy in YY_DO_BEFORE_ACTION / yy_do_before_action of each of the >=6 %array variants')
     rep.floor('C13.R7', 6, 'th.th_version in yytbl_fload of every tables-file variant')
     rep.floor('C13.R6', 300, 'measured 335: 2-3 allocation sites of yy_ch_buf per variant')
     rep.undecided += ['absence of out-of-bounds accesses driven by table contents or input length', 'use of uninitialised memory',
